@@ -113,6 +113,18 @@ class Project:
             with open(os.path.join(d, n), "w") as f:
                 f.write(c)
 
+    def write_split(self, d):
+        """The same files in two directories: the import cycles in d/two, everything else in d/one."""
+        for sub in ("one", "two"):
+            os.makedirs(os.path.join(d, sub), exist_ok=True)
+        for n, c in self.files.items():
+            sub = "two" if n.startswith(("cyc", "tri")) else "one"
+            with open(os.path.join(d, sub, n), "w") as f:
+                f.write(c)
+        if not any(n.startswith(("cyc", "tri")) for n in self.files):
+            with open(os.path.join(d, "two", "lonely.py"), "w") as f:
+                f.write("def lonely(x):\n    return x\n")
+
 
 def base(path):
     return os.path.basename(path)
@@ -149,10 +161,13 @@ def analyse_project(ck, proj, d, extra_cfg=None):
 # cases
 # ----------------------------------------------------------------------------------------------
 def mk_case(proj, select=None, maxcx=None, allow_dead=False, skip_clones=False, allow_circ=False, maxcyc=None, quiet=False,
-            cfg=None, layout="in", decoy=None, explicit=None, target_missing=False):
-    """cfg / decoy / explicit: dict with optional keys max, min, sev (values as written to the TOML file)."""
+            cfg=None, layout="in", decoy=None, explicit=None, target_missing=False, order=None):
+    """cfg / decoy / explicit: dict with optional keys max, min, sev (values as written to the TOML file).
+    layout: in (cwd = project, target .), out (cwd elsewhere, target ../proj), noargs (cwd = project, no target at all),
+    split (the project in two directories one/ and two/, both given as targets in the order `order`)."""
     return dict(proj=proj, select=select, maxcx=maxcx, allow_dead=allow_dead, skip_clones=skip_clones, allow_circ=allow_circ,
-                maxcyc=maxcyc, quiet=quiet, cfg=cfg, layout=layout, decoy=decoy, explicit=explicit, target_missing=target_missing)
+                maxcyc=maxcyc, quiet=quiet, cfg=cfg, layout=layout, decoy=decoy, explicit=explicit, target_missing=target_missing,
+                order=order)
 
 
 def toml_of(c):
@@ -253,6 +268,21 @@ def core_cases(P):
     cs.append(mk_case(clean, select=["clones"], target_missing=True))
     cs.append(mk_case(clean, select=["complexity"], target_missing=True))
     cs.append(mk_case(clean, target_missing=True))
+    # --- no target at all (= the working directory); several targets: every one of them is checked
+    cs.append(mk_case(clean, layout="noargs"))
+    cs.append(mk_case(b, layout="noargs"))
+    cs.append(mk_case(b, layout="noargs", maxcx=13, allow_dead=True))
+    cs.append(mk_case(b, layout="noargs", select=["deps"], maxcyc=2))
+    cs.append(mk_case(b, layout="noargs", select=["deps"], maxcyc=1))
+    cs.append(mk_case(b, layout="noargs", select=["complexity"], cfg={"max": 13}))
+    for order in (("one", "two"), ("two", "one")):
+        cs.append(mk_case(b, layout="split", order=order, select=["deps"]))
+        cs.append(mk_case(b, layout="split", order=order, select=["deps"], maxcyc=2))
+        cs.append(mk_case(b, layout="split", order=order, select=["complexity", "deadcode"], maxcx=13))
+        cs.append(mk_case(b, layout="split", order=order, select=["complexity"], maxcx=13))
+        cs.append(mk_case(b, layout="split", order=order, select=["deadcode"], allow_dead=True))
+        cs.append(mk_case(clean, layout="split", order=order, select=["complexity", "deadcode", "deps"]))
+        cs.append(mk_case(cyc3, layout="split", order=order, select=["deps"], maxcyc=3))
     cs.append(mk_case(clean, select=["bogus"]))
     cs.append(mk_case(b, select=["complexity", "nothing"], maxcx=20))
     return cs
@@ -365,12 +395,19 @@ def run_case_impl(args):
     d = os.path.join(root, "case%04d" % idx)
     shutil.rmtree(d, ignore_errors=True)
     pd = os.path.join(d, "proj")
-    case["proj"].write(pd)
+    if case["layout"] == "split":
+        case["proj"].write_split(pd)
+    else:
+        case["proj"].write(pd)
     if case["cfg"] is not None:
         with open(os.path.join(pd, ".pyscn.toml"), "w") as f:
             f.write(toml_of(case["cfg"]))
     rund = os.path.join(d, "run")
     os.makedirs(rund, exist_ok=True)
+    if case["layout"] == "noargs":
+        # a trap next to the project: without a target argument only the working directory is checked
+        with open(os.path.join(d, "outside_trap.py"), "w") as f:
+            f.write(fn_complexity("trap", 25) + fn_dead_critical("trap_dead"))
     if case["decoy"] is not None:
         with open(os.path.join(rund, ".pyscn.toml"), "w") as f:
             f.write(toml_of(case["decoy"]))
@@ -395,16 +432,20 @@ def run_case_impl(args):
     if case["quiet"]:
         argv.append("--quiet")
     if case["layout"] == "in":
-        cwd, target = pd, "."
+        cwd, targets = pd, ["."]
+    elif case["layout"] == "noargs":
+        cwd, targets = pd, []
+    elif case["layout"] == "split":
+        cwd, targets = pd, list(case["order"])
     else:
-        cwd, target = rund, os.path.join("..", "proj")
+        cwd, targets = rund, [os.path.join("..", "proj")]
     if case["target_missing"]:
-        target = os.path.join(target, "no_such_dir")
-    rc, out, err = lib.pyscn(argv + [target], cwd, timeout=120)
-    res = dict(rc=rc, argv=argv + [target], cwd=cwd, stderr=err, parsed=parse_stderr(err))
+        targets = [os.path.join(targets[0], "no_such_dir")]
+    rc, out, err = lib.pyscn(argv + targets, cwd, timeout=120)
+    res = dict(rc=rc, argv=argv + targets, cwd=cwd, stderr=err, parsed=parse_stderr(err))
     if case["quiet"]:
         # the same run without --quiet: tells how many clone pairs / mock findings there are, and must agree on the verdict
-        rc2, _, err2 = lib.pyscn([a for a in argv if a != "--quiet"] + [target], cwd, timeout=120)
+        rc2, _, err2 = lib.pyscn([a for a in argv if a != "--quiet"] + targets, cwd, timeout=120)
         res["loud_rc"], res["loud"] = rc2, parse_stderr(err2)
     shutil.rmtree(d, ignore_errors=True)
     return res
@@ -425,7 +466,7 @@ def coq_cfg(c):
 def effective_configs(case):
     """(explicit, found from the target upward, found from the cwd upward) as the harness laid the files out."""
     tgt = case["cfg"]
-    if case["layout"] == "in":
+    if case["layout"] in ("in", "noargs", "split"):
         cwdc = case["cfg"]
     else:
         cwdc = case["decoy"]
@@ -626,7 +667,20 @@ def main(tier):
         # (1) exit status vs the property
         clone_failed = "MCloneFailed" in p["msgs"]
         literal_ok = spec and not (selected(case, "clones", not case["skip_clones"]) and clone_failed)
-        if (rc == 0) != spec:
+        first_only = (case["layout"] == "split" and case["order"][0] == "one" and selected(case, "deps", False) and not p["cycles"]
+                      and len(a["cycles"]) > 0 and "MInvalidSelect" not in p["msgs"])
+        e_first = ck.match_known({"class": "deps-first-target-only", "exit": 0, "cycles_in_first_target": 0}) if first_only else None
+        if e_first:
+            # the cycles live in the second target, which the deps check never looks at (recorded finding): everything else of the
+            # case is still judged, with the cycles taken out of the expectation; the model of runCheck gets all the cycles and is not compared
+            n_known += 1
+            ck.known_finding(e_first)
+            a = dict(a, cycles=[])
+            spec = py_spec(case, a)[0]
+            mv = None
+        if False:
+            pass
+        elif (rc == 0) != spec:
             n_spec_bad += 1
             if n_spec_bad <= 4:
                 ck.violation("pyscn check exit status %d but the gate conditions say %s (effective max complexity %s, max cycles %s)"
@@ -722,6 +776,8 @@ def main(tier):
                                "cwd_outside_target": sum(1 for c in cases if c["layout"] == "out"),
                                "decoy_config_in_cwd": sum(1 for c in cases if c["decoy"] is not None),
                                "quiet": sum(1 for c in cases if c["quiet"]),
+                               "no_target_argument": sum(1 for c in cases if c["layout"] == "noargs"),
+                               "two_targets": sum(1 for c in cases if c["layout"] == "split"),
                                "analysis_cannot_run": sum(1 for c in cases if c["proj"].empty or c["target_missing"])},
         "disagreements_checked": n_spec_bad + n_line_bad + n_tie_bad + n_known,
         "spec_disagreements": n_spec_bad, "line_disagreements": n_line_bad, "model_disagreements": n_tie_bad,
